@@ -79,6 +79,7 @@ type S struct {
 	failed  bool // a violation was recorded: stop the case
 	plan    string // plan kind of the last read (coverage only)
 	lastSt  *mon.OpStats
+	opCells bool // record <operation|outcome|backend> coverage cells
 }
 
 func NewS(c *core.Ctx, h *Handle) *S {
@@ -164,6 +165,9 @@ func (s *S) expect(name string, want []string, got string, err error) bool {
 		return false
 	}
 	s.c.Log("%s -> %s", name, got)
+	if s.opCells {
+		s.c.Cell("op|%s|%s|%s", opName(name), got, s.h.Backend)
+	}
 	return true
 }
 
